@@ -409,6 +409,34 @@ def e2e_versions_worker(job):
                         async with sftp.open('dst', 'ab') as f:
                             await f.write(src[:100])
                         out['want'], out['got'] = (old or b'') + src[:100], open(os.path.join(sd, 'dst'), 'rb').read()
+                    elif op == 'open-text':
+                        # text mode (the default for mode 'w'): consecutive writes of strings with multi-byte
+                        # characters continue where the previous one ended -- in bytes, not characters
+                        put(os.path.join(sd, 'dst'), old)
+                        parts = ['h\u00e9llo \u20ac ', 'w\u00f6rld \U0001d11e', ' end\n']
+                        async with sftp.open('dst', 'w') as f:
+                            for p in parts:
+                                await f.write(p)
+                        out['want'], out['got'] = ''.join(parts).encode('utf-8'), open(os.path.join(sd, 'dst'), 'rb').read()
+                    elif op == 'open-text-seek':
+                        put(os.path.join(sd, 'dst'), b'x' * 40)
+                        async with sftp.open('dst', 'r+') as f:
+                            await f.seek(4)
+                            await f.write('\u00e9\u00e9')
+                            await f.write('ZZ')
+                            back = await f.read(6, 0)
+                        want = bytearray(b'x' * 40)
+                        want[4:8] = '\u00e9\u00e9'.encode()
+                        want[8:10] = b'ZZ'
+                        out['want'], out['got'] = bytes(want), open(os.path.join(sd, 'dst'), 'rb').read()
+                        if back != 'xxxx\u00e9':
+                            out['got'] = b'read-back:' + repr(back).encode()
+                    elif op == 'open-text-read':
+                        text = 'a\u00e9b\u20acc\U0001d11ed\n' * 3
+                        put(os.path.join(sd, 'dst'), text.encode('utf-8'))
+                        async with sftp.open('dst', 'r') as f:
+                            got = await f.read()
+                        out['want'], out['got'] = text.encode('utf-8'), got.encode('utf-8') if isinstance(got, str) else got
                     elif op == 'open-xb':
                         put(os.path.join(sd, 'dst'), old)
                         try:
@@ -447,7 +475,7 @@ def e2e_versions_worker(job):
 
 
 def e2v_jobs():
-    cases = [(v, op, old) for v in (3, 4, 5, 6) for op in ('put', 'get', 'copy', 'open-wb', 'open-w', 'open-r+b', 'open-ab', 'open-xb')
+    cases = [(v, op, old) for v in (3, 4, 5, 6) for op in ('put', 'get', 'copy', 'open-wb', 'open-w', 'open-r+b', 'open-ab', 'open-xb', 'open-text', 'open-text-seek', 'open-text-read')
              for old in (None, 0, 100, 3000, 5000)]
     return [cases[i::16] for i in range(16)]
 
@@ -482,7 +510,7 @@ def main(tier, seed):
             'FAILURE / PERMISSION_DENIED / premature EOF, or two at once under both asyncio.wait orders; '
             'deviation-bounded DFS; oracle = model file store; plus end-to-end get/put/copy of tmpfs sparse files '
             'with 1..129 (thorough 300) page-sized data extents through a real asyncssh SFTP server; put/get/copy and '
-            'open in wb/w/r+b/ab/xb mode under SFTP versions 3-6 onto destinations that are absent, empty, shorter, '
+            'open in wb/w/r+b/ab/xb and text mode (multi-byte characters, consecutive writes, seek) under SFTP versions 3-6 onto destinations that are absent, empty, shorter, '
             'equal or longer')
     return core.finish(PROP, tier, seed, 'model_checking', acc, t0, rule,
                        {'jobs': len(js), 'deviation_bound': '2 (1 for block size 8)' if tier == 'quick' else 3},
